@@ -20,7 +20,8 @@ func init() {
 	fw.Register(&fw.Prop{
 		ID: "C08",
 		Rule: "shadow state-machine monitor: seeded random histories (5-120 steps) of leaf creation (tracked or not), unary / binary / Concat / comparison operations over existing tensors (including spent ones), BackPropagate(any existing tensor) and ResetGradContext(any existing tensor, true|false); the generator consults the model only to respect provisos (a) and (b) of the quantifier. After EVERY step, for EVERY tensor created so far: Gradient() nil-ness and identity (public API), hooked tracked / spent flags, and - where a back-propagation delivered something - the gradient value against the model's total derivative. Each history ends with destructive public-API probes (t.Scale(1) back-propagated) for every tensor, and is re-run with every leaf untracked to check that forward values are bit-identical. " +
-			"Non-trivial: the history contains an operation on a spent tensor, a reset, or a repeated back-propagation; distinct = the set of (state, action, state') transitions of the history hashed together with its length class. states/transitions observed are reported separately. Later additions: same-shape Reshape / Flatten, Pow(0), Var/StdAlong (size-1 dimensions included) in the op mix; calls that must be REJECTED between existing tensors as an action (nothing may change); a gradient tensor adopted as a leaf of its own (x.Gradient().ResetGradContext(b)) and used like any tensor.",
+			"Non-trivial: the history contains an operation on a spent tensor, a reset, or a repeated back-propagation; distinct = the set of (state, action, state') transitions of the history hashed together with its length class. states/transitions observed are reported separately. Later additions: same-shape Reshape / Flatten, Pow(0), Var/StdAlong (size-1 dimensions included) in the op mix; calls that must be REJECTED between existing tensors as an action (nothing may change); a gradient tensor adopted as a leaf of its own (x.Gradient().ResetGradContext(b)) and used like any tensor." +
+			" Round 4: a third of the histories pair existing tensors of different broadcast-compatible shapes in Add/Sub/Mul/Div (states and the bit-for-bit untracked twin are decided, gradient values of expanded operands are left to C07) with the directed action 'reset one operand, apply the same operation again'; Sigmoid / Relu objects and the MSE component as operations.",
 		Assumptions: []string{
 			"binary operands have equal shapes (no expansion > 1, which is C07's subject)",
 			"results of a comparison OF a spent tensor are checked themselves (untracked, no gradient) but never used as operands: what their descendants are is read differently by two sentences of the statement, so no verdict is given there",
@@ -62,6 +63,8 @@ type c08hist struct {
 	adopted      map[tensor.Tensor]bool // gradient tensors that the history turned into leaves of their own
 	execFn       func(in ref.Instr, xs []tensor.Tensor) (tensor.Tensor, error, any)
 	skipValues   bool // do not compare values with the model (C10 compares with a twin run instead)
+	allowExpand  bool // binary operations may pair existing tensors of different, broadcast-compatible shapes
+	expands      bool // such a pair occurred: gradient VALUES are left to C01/C07 (recorded finding on expanded operands), states are still decided
 	afterObserve func(step int, changed map[int]bool) bool
 }
 
@@ -256,7 +259,7 @@ func (h *c08hist) observe(step int, changed map[int]bool) bool {
 		}
 		if changed[i] && g == nil {
 			// reset: the gradient was just dropped
-		} else if changed[i] && h.skipValues {
+		} else if changed[i] && (h.skipValues || h.expands) {
 			// value compared with the twin run instead
 		} else if changed[i] {
 			got, err := rt.Read(g)
@@ -500,6 +503,52 @@ func (h *c08hist) doReset(t int, flag bool) bool {
 
 var c08Shapes = [][]int{{}, {2}, {3}, {2, 2}, {2, 3}, {1}, {2, 1}, {1, 3}}
 
+// doResetAndRepeat: pick an earlier binary operation over two tensors of different shapes, give one of its operands a
+// fresh context with the opposite tracking (if the provisos allow a reset there) and apply the very same operation again.
+func (h *c08hist) doResetAndRepeat() bool {
+	r := h.k.Rng
+	var c []int
+	for i, n := range h.nodes {
+		if len(n.in.In) == 2 && ref.Differentiable[n.in.Op] && !ref.SameShape(h.nodes[n.in.In[0]].val.Shape, h.nodes[n.in.In[1]].val.Shape) {
+			c = append(c, i)
+		}
+	}
+	if len(c) == 0 {
+		return true
+	}
+	in := h.nodes[c[r.Intn(len(c))]].in
+	j := in.In[r.Intn(2)]
+	for tries := 0; tries < 4 && !h.resetAllowed(j); tries++ { // first back-propagate what was computed from it (newest first)
+		done := false
+		for z := len(h.nodes) - 1; z > j && !done; z-- {
+			if n := h.nodes[z]; n.tracked && !n.spent && !n.leaf && h.dependsOn(z, j) && h.backpropAllowed(z) {
+				if !h.doBackprop(z) {
+					return false
+				}
+				done = true
+			}
+		}
+		if !done {
+			break
+		}
+	}
+	if !h.resetAllowed(j) {
+		return true
+	}
+	h.k.Count("reset_then_same_mixed_shape_operation", 1)
+	if !h.doReset(j, !h.nodes[j].tracked) {
+		return false
+	}
+	for _, o := range in.In {
+		if h.nodes[o].cmpOfSpent {
+			return true
+		}
+	}
+	again := in
+	again.In = append([]int(nil), in.In...)
+	return h.doOp(again)
+}
+
 func (h *c08hist) usable() []int {
 	var out []int
 	lo := 0
@@ -537,7 +586,69 @@ func (h *c08hist) genOp() (ref.Instr, bool) {
 		return c[r.Intn(len(c))]
 	}
 	rank := len(v.Shape)
-	switch r.Intn(12) {
+	nops := 12
+	if h.allowExpand {
+		nops = 14
+	}
+	switch r.Intn(nops) {
+	case 12, 13: // a binary operation over two existing tensors of different, broadcast-compatible shapes (implicit expansion)
+		var c []int
+		for _, j := range us {
+			w := h.nodes[j].val
+			if _, err := ref.BroadcastShape(v.Shape, w.Shape); err == nil && !ref.SameShape(v.Shape, w.Shape) {
+				c = append(c, j)
+			}
+		}
+		if len(c) == 0 || r.Intn(6) == 0 { // no partner yet: create one (scalar, a suffix of the shape, some sizes collapsed to 1, or a leading dimension added)
+			shape := ref.CopyInts(v.Shape)
+			switch q := r.Intn(4); {
+			case q == 0 || rank == 0:
+				shape = []int{}
+				if rank == 0 {
+					shape = [][]int{{2}, {1, 3}, {2, 2}}[r.Intn(3)]
+				}
+			case q == 1:
+				shape = shape[1+r.Intn(rank):]
+			case q == 2:
+				shape = append([]int{2}, shape...)
+			default:
+				for d := range shape {
+					if r.Intn(2) == 0 {
+						shape[d] = 1
+					}
+				}
+				if ref.SameShape(shape, v.Shape) {
+					shape = []int{}
+				}
+			}
+			if ref.Prod(shape) > 64 {
+				shape = []int{}
+			}
+			t := Shuffled(r, Unique(r, shape, 0.2, 1.5))
+			return ref.Instr{Op: "leaf", Shape: shape, Data: t.Data, Tracked: r.Intn(2) == 0}, true
+		}
+		y := c[r.Intn(len(c))]
+		w := h.nodes[y].val
+		if out, _ := ref.BroadcastShape(v.Shape, w.Shape); ref.Prod(out) > 200 {
+			return ref.Instr{Op: "tanh", In: []int{x}}, true
+		}
+		a, b := x, y
+		if r.Intn(2) == 0 {
+			a, b = y, x
+		}
+		op := []string{"add", "sub", "mul", "div"}[r.Intn(4)]
+		if op == "div" {
+			for _, e := range h.nodes[b].val.Data {
+				if math.Abs(e) < 0.1 {
+					op = "sub"
+				}
+			}
+		}
+		if (op == "mul" || op == "div") && maxAbs(v)*maxAbs(w) > 50 || op == "div" && maxAbs(h.nodes[a].val) > 20 {
+			op = "add"
+		}
+		h.expands = true
+		return ref.Instr{Op: op, In: []int{a, b}}, true
 	case 11: // operations whose backward rule is computed from the operand alone: Pow(0), Var/StdAlong over a size-1 dimension
 		if rank >= 1 && r.Intn(2) == 0 {
 			dim := r.Intn(rank)
@@ -558,10 +669,13 @@ func (h *c08hist) genOp() (ref.Instr, bool) {
 		return ref.Instr{Op: "unsqueeze", In: []int{x}, Dim: 0}, true
 	case 0:
 		return ref.Instr{Op: "scale", In: []int{x}, F: []float64{-1.2, 0.5, 1, 0.8}[r.Intn(4)]}, true
-	case 1:
-		return ref.Instr{Op: []string{"sin", "tanh", "cos"}[r.Intn(3)], In: []int{x}}, true
+	case 1: // element-wise functions, among them component calls (activation objects)
+		return ref.Instr{Op: []string{"sin", "tanh", "cos", "sigmoid", "relu"}[r.Intn(5)], In: []int{x}}, true
 	case 2, 3:
 		y := same()
+		if rank == 1 && r.Intn(4) == 0 { // a loss component over two existing tensors (either may be tracked, spent, or the same object)
+			return ref.Instr{Op: "mse", In: []int{x, y}}, true
+		}
 		op := []string{"add", "sub", "mul"}[r.Intn(3)]
 		if op == "mul" && maxAbs(v)*maxAbs(h.nodes[y].val) > 50 {
 			op = "sub"
@@ -613,7 +727,7 @@ func runC08(c *fw.Ctx) {
 }
 
 func c08History(k *fw.K) {
-	h := &c08hist{k: k, trans: map[string]bool{}, flags: map[string]bool{}}
+	h := &c08hist{k: k, trans: map[string]bool{}, flags: map[string]bool{}, allowExpand: k.Index%3 == 1}
 	defer func() { k.Case = map[string]any{"history": h.actions} }()
 	steps := 5 + k.Rng.Intn(116)
 	if k.Index%500 == 3 { // a few very long histories
@@ -634,6 +748,8 @@ func c08History(k *fw.K) {
 			if h.backpropAllowed(t) {
 				ok = h.doBackprop(t)
 			}
+		case h.expands && q == 3 && k.Rng.Intn(2) == 0: // an operand of an earlier mixed-shape operation is reset (tracking flipped) and the same operation is applied again
+			ok = h.doResetAndRepeat()
 		case len(h.nodes) >= 2 && q == 2: // ResetGradContext(any, bool)
 			t := k.Rng.Intn(len(h.nodes))
 			if h.resetAllowed(t) {
@@ -666,6 +782,9 @@ func c08History(k *fw.K) {
 		}
 	}
 	k.Count("steps", int64(len(h.actions)))
+	if h.expands {
+		k.Count("histories_with_implicit_expansion(states_only)", 1)
+	}
 	for t := range h.trans {
 		k.Add("transitions", "%s", t)
 	}
